@@ -240,8 +240,8 @@ func cmdCheck(args []string) int {
 			slowJobs = append(slowJobs, j)
 		}
 	}
-	if len(slowJobs) > 0 && len(slowJobs) <= 8 {
-		dr := &discharger{dir: work, seed: seed + 1, timeoutMs: 4 * d.timeoutMs, retryMs: 4 * d.retryMs, par: 4, deadline: d.deadline.Add(240 * time.Second)}
+	if len(slowJobs) > 0 && len(slowJobs) <= 6 {
+		dr := &discharger{dir: work, seed: seed + 1, timeoutMs: 2 * d.timeoutMs, retryMs: 5 * d.retryMs / 2, par: 4, deadline: d.deadline.Add(150 * time.Second)}
 		for _, j := range slowJobs {
 			j.o.firstRes = j.o.res
 			j.o.res, j.o.solver = "", ""
@@ -471,9 +471,15 @@ func (e *engine) checkBinding(fc *funcContract, fn *ssa.Function) error {
 				// the loop header reads differently now (renamed variable, changed bound): the
 				// clauses are still tried against the loop with that ordinal - they either
 				// still hold, fail by name, or no longer evaluate (UNDECIDED)
-				fmt.Printf("note: %s:%d: loop %d of %s: hint %q does not occur in %q any more\n", fc.file, ls.line, k, fc.key, ls.hint, strings.TrimSpace(txt))
-				// a pure renaming of locals in the loop header: remember old name -> new name
-				for o, n := range renamedIdents(ls.hint, txt) {
+				// the loop header reads differently now. A pure renaming of locals is followed
+				// (old name -> new name); anything else means the loop was restructured: the
+				// annotations no longer describe it and are dropped (clauses fail by name)
+				ren := renamedIdents(ls.hint, txt)
+				if ren == nil {
+					return loopBindErr(fmt.Sprintf("%s:%d: loop %d of %s: hint %q does not occur in %q", fc.file, ls.line, k, fc.key, ls.hint, strings.TrimSpace(txt)))
+				}
+				fmt.Printf("note: %s:%d: loop %d of %s: hint %q occurs in %q only up to renaming\n", fc.file, ls.line, k, fc.key, ls.hint, strings.TrimSpace(txt))
+				for o, n := range ren {
 					if fc.aliases == nil {
 						fc.aliases = map[string]string{}
 					}
